@@ -175,6 +175,11 @@ int main(int argc, char **argv)
 			struct route_ctx *rc = bpf_map_lookup_elem(&route_ctx_scratch_map, &zk);
 			rc->result = ROUTE_SENTINEL;
 			struct parsed_packet *pkt = bpf_map_lookup_elem(&pkt_scratch_map, &zk);
+			/* what parse_packet returns for this frame (the hooks call it themselves; parsing has no side effect) */
+			static struct parsed_packet pprobe;
+			int pret = parse_packet(&skb, link, &pprobe);
+			vskb_init(&skb, fbuf, n, linear);
+			skb.protocol = bpf_htons((__u16)proto); skb.mark = skbmark; skb.ingress_ifindex = ingif; skb.ifindex = 3;
 			memset(pkt, 0, sizeof(*pkt));
 			int act;
 			switch (hook) {
@@ -184,8 +189,8 @@ int main(int argc, char **argv)
 			default: act = do_tproxy_lan_egress(&skb, link); break;
 			}
 			int changed = (vframe_len != n) || memcmp(vframe, fbuf, n) != 0;
-			printf("{\"case\":%ld,\"step\":%d,\"act\":%d,\"mark\":%u,\"cb0\":%u,\"cb1\":%u,\"redir\":%d,\"ifx\":%u,\"changed\":%d,",
-			       caseid, stepno++, act, (unsigned)skb.mark, (unsigned)skb.cb[0], (unsigned)skb.cb[1], vredir.kind, (unsigned)vredir.ifindex, changed);
+			printf("{\"case\":%ld,\"step\":%d,\"pret\":%d,\"act\":%d,\"mark\":%u,\"cb0\":%u,\"cb1\":%u,\"redir\":%d,\"ifx\":%u,\"changed\":%d,",
+			       caseid, stepno++, pret, act, (unsigned)skb.mark, (unsigned)skb.cb[0], (unsigned)skb.cb[1], vredir.kind, (unsigned)vredir.ifindex, changed);
 			if (rc->result == ROUTE_SENTINEL) {
 				printf("\"route\":null,");
 			} else {
